@@ -1,4 +1,5 @@
 import CalVerif.Lemmas.Xlsb
+import CalVerif.Lemmas.XlsbCross
 import CalVerif.Props.C05
 /-! # C03 — XLSB: every cell record reads back at its position with its value
 
@@ -34,13 +35,55 @@ theorem widestr_roundtrip (us : List Nat) (hl : us.length < 4294967296) (h : ∀
     wideStr (wideBytes us ++ rest) = .ok (us, 4 + us.length * 2) :=
   wideStr_wideBytes us hl h rest
 
-/-- the shared string table part is read back as exactly its strings, in order (BrtBeginSst with any total
-    count, one BrtSSTItem per string, each record framed with any widths; whatever follows is not read) — so that
-    `BrtCellIsst` indices resolve to the stored strings -/
-theorem sst_roundtrip (total : Nat) (hw : Bool) (hl : Nat) (strs : List (List Nat × Bool × Nat)) (post : Bytes)
-    (hn : strs.length < 4294967296) (h : ∀ s ∈ strs, s.1.length < 100000000 ∧ ∀ u ∈ s.1, u < 65536) :
-    readSharedStrings (sstBytes total hw hl strs post) = .ok (strs.map (·.1)) :=
-  readSharedStrings_enc total hw hl strs post hn h
+/-- The shared string table part is read back as exactly the texts of its items, in order: BrtBeginSst with any
+    total count, any records in front of it; per item the flags byte with `fRichStr` / `fExtStr` set or not, the
+    rich-text runs and the phonetic string with its runs behind the text, any foreign records (and skipped
+    0x23 … 0x24 blocks) in front of the item, every record framed with any widths; whatever follows the last item
+    is not read. Rich runs and phonetic data contribute nothing to the text, and indices stay aligned — so a
+    `BrtCellIsst` index resolves to the stored string. -/
+theorem sst_roundtrip (pre0 : List Seg) (total : Nat) (hw : Bool) (hl : Nat) (entries : List SstEntry) (post : Bytes)
+    (hp0 : ∀ s ∈ pre0, s.OK 0x009F []) (hn : entries.length < 4294967296) (h : ∀ e ∈ entries, e.OK) :
+    readSharedStrings (sstBytes pre0 total hw hl entries post) = .ok (entries.map (·.text)) :=
+  readSharedStrings_enc pre0 total hw hl entries post hp0 hn h
+
+/-- non-vacuity: a plain item, a rich-text item behind a foreign record, an item with phonetic data behind a
+    skipped block of future records -/
+example :
+    let entries : List SstEntry :=
+      [⟨[104, 105], none, none, [], false, 0⟩,
+       ⟨[0x6F22, 0x5B57], some [(0, 1), (1, 2)], none, [.one ⟨.raw 0x3FFF [1, 2], true, 3⟩], true, 4⟩,
+       ⟨[0x6771], some [(0, 0)], some ([0x30D2, 0x30AC, 0x30B7], [(0, 0, 1)]),
+        [.block ⟨.raw 0x23 [0xFF], false, 0⟩ [⟨.raw 0x13 [0, 9, 9, 9, 9], false, 0⟩] ⟨.raw 0x24 [], false, 0⟩], false, 2⟩]
+    (∀ e ∈ entries, e.OK) ∧ entries.map (·.flags) = [0, 1, 3] := by
+  refine ⟨?_, rfl⟩
+  intro e he
+  simp only [List.mem_cons, List.not_mem_nil, or_false] at he
+  rcases he with rfl | rfl | rfl
+  · exact ⟨by decide, by decide, by decide, fun _ h => nomatch h⟩
+  · refine ⟨by decide, by decide, by decide, ?_⟩
+    intro s hs
+    simp only [List.mem_cons, List.not_mem_nil, or_false] at hs
+    subst hs
+    exact ⟨⟨by decide, by decide⟩, by decide, by decide⟩
+  · refine ⟨by decide, by decide, by decide, ?_⟩
+    intro s hs
+    simp only [List.mem_cons, List.not_mem_nil, or_false] at hs
+    subst hs
+    refine ⟨⟨by decide, by decide⟩, by decide, by decide, ⟨by decide, by decide⟩, ?_⟩
+    intro x hx
+    simp only [List.mem_cons, List.not_mem_nil, or_false] at hx
+    subst hx
+    exact ⟨⟨by decide, by decide⟩, by decide⟩
+
+/-- G3 (`wide_str` is modelled twice): the copy in `Model/XmlText.lean` (C19) and this property's `wideStr`
+    agree on every buffer that holds the 4-byte count (units compared as numbers) -/
+theorem widestr_models_agree (buf : Bytes) (h : 4 ≤ buf.length) :
+    (match XmlText.wideStr buf with
+      | .ok (us, n) => Res.ok (us.map (·.toNat), n)
+      | .err e => .err e
+      | .panic s => .panic s
+      | .outOfFuel => .outOfFuel) = wideStr buf :=
+  xmlText_wideStr_eq buf h
 
 /-! ## cell records -/
 
@@ -53,13 +96,50 @@ theorem cell_record_roundtrip (ctx : Ctx) (c : CellRec) (hwf : c.WF) (v : Val)
     interpret ctx c.recId c.payload = .value c.col v :=
   interpret_cell ctx c hwf v hv
 
-/-- a formula record contributes exactly what the constant record of the same type contributes, whatever the
-    formula bytes are -/
+/-- For the four kinds that HAVE a formula record (error, boolean, number, string: BrtFmlaError / BrtFmlaBool /
+    BrtFmlaNum / BrtFmlaString against BrtCellError / BrtCellBool / BrtCellReal / BrtCellSt) the formula record —
+    a different record id, the same cell part, then any formula bytes — contributes exactly what the constant
+    record contributes (also when that is a rejection: an error code outside the BErr table) -/
 theorem fmla_equals_const (ctx : Ctx) (col style : Nat) (content : Content) (f : Bytes)
-    (hwf : (CellRec.mk col style content none).WF) (v : Val) (hv : valueOf ctx style content = some v) :
+    (hf : content.hasFmla = true) (hwf : (CellRec.mk col style content none).WF) :
+    (CellRec.mk col style content (some f)).recId ≠ (CellRec.mk col style content none).recId ∧
     interpret ctx (CellRec.mk col style content (some f)).recId (CellRec.mk col style content (some f)).payload
       = interpret ctx (CellRec.mk col style content none).recId (CellRec.mk col style content none).payload := by
-  rw [interpret_cell ctx ⟨col, style, content, some f⟩ hwf v hv, interpret_cell ctx ⟨col, style, content, none⟩ hwf v hv]
+  refine ⟨?_, fmla_eq_const ctx col style content f hf hwf⟩
+  cases content <;> simp [Content.hasFmla] at hf <;> simp [CellRec.recId]
+
+/-! ## error values -/
+
+/-- The byte of an error record is read through the BErr table of the specification (0x00 #NULL!, 0x07 #DIV/0!,
+    0x0F #VALUE!, 0x17 #REF!, 0x1D #NAME?, 0x24 #NUM!, 0x2A #N/A, 0x2B #GETTING_DATA): the table translated from the
+    `match self.buf[8]` of `next_cell` on every run IS that table, the table of xls `parse_err` is the same one,
+    and it is one-to-one (a code stands for a kind exactly when it is that kind's code; kinds have distinct codes) -/
+theorem berr_table :
+    Gen.xlsbErrTable = berrTable ∧ Gen.xlsErrTable = berrTable ∧
+    (∀ c k, berrKind c = some k ↔ c = berrCode k) ∧ (∀ k k', berrCode k = berrCode k' → k = k') ∧
+    (∀ k, berrCode k < 256) ∧
+    (berrTable.map fun r => (r.1, berrText r.2)) =
+      [(0x00, "#NULL!"), (0x07, "#DIV/0!"), (0x0F, "#VALUE!"), (0x17, "#REF!"), (0x1D, "#NAME?"), (0x24, "#NUM!"),
+       (0x2A, "#N/A"), (0x2B, "#GETTING_DATA")] :=
+  ⟨xlsbErrTable_eq_berr, xlsErrTable_eq_berr, berrTable_bijective.1, berrTable_bijective.2.1, berrTable_bijective.2.2, rfl⟩
+
+/-- an error record (constant or formula form) holding the code of kind `k` reads as that error value; any byte
+    outside the table is rejected with `Err(CellError)` -/
+theorem error_record_kind (ctx : Ctx) (col style : Nat) (fmla : Option Bytes) (hcol : col < 4294967296) :
+    (∀ k, interpret ctx (CellRec.mk col style (.err (berrCode k)) fmla).recId
+        (CellRec.mk col style (.err (berrCode k)) fmla).payload = .value col (.error (berrCode k))) ∧
+    (∀ c, c < 256 → berrKind c = none →
+      interpret ctx (CellRec.mk col style (.err c) fmla).recId (CellRec.mk col style (.err c) fmla).payload
+        = .fail (.err "CellError")) := by
+  refine ⟨fun k => ?_, fun c hc hn => ?_⟩
+  · exact interpret_cell ctx ⟨col, style, .err (berrCode k), fmla⟩ ⟨hcol, berrTable_bijective.2.2 k⟩ _
+      (by simp only [valueOf]; rw [berrKind_berrCode]; rfl)
+  · exact interpret_err_invalid ctx col style c fmla hc (by rw [isErrCode_eq_berr, hn]; rfl)
+
+/-- xls BOOLERR (`parse_err`, C02's model and its `boolerr_bijective`) uses the same table -/
+theorem berr_table_xls (e : Nat) (k : BiffCells.ErrKind) :
+    BiffCells.parseErr e = .ok (.error k) ↔ berrKind e = some (ofBiffErr k) :=
+  biff_parseErr_eq_berr e k
 
 /-- a record whose id the cell loop does not interpret (any id but 0, 2..11 and 0x92; 1- or 2-byte id, 1..4-byte
     length), placed before ANY remaining byte stream, changes nothing: the loop continues behind it in the same row -/
@@ -117,70 +197,49 @@ theorem ignorable_records (ctx : Ctx) (pre1 pre2 : List Seg) (dims : Bytes) (dw 
     around a BrtWsDim of at least 16 bytes), sheet data made of row headers, cell records of all eleven kinds
     (constant or formula form) and ignorable records in any interleaving, every record framed with a 1- or 2-byte
     id and a 1..4-byte length, BrtEndSheetData, then anything — whose cells lie in rows < 2^20 and columns < 2^14
-    with non-decreasing rows, the reader returns a range that
+    (in ANY row order, since `from_sparse` takes min / max over all cells), the reader returns a range that
     * is empty iff the sheet has no value cell,
     * otherwise is exactly the bounding rectangle of the value cells (every cell inside, every side touched),
-    * holds at every absolute position the value of the (last) cell record addressing it, `Empty` elsewhere. -/
+    * holds at every absolute position the value of the (last) cell record addressing it, `Empty` elsewhere;
+      in particular, when no two cell records address the same position, every cell is read back at its position
+      with its value, and every position no cell record addresses reads `Empty`. -/
 theorem xlsb_sheet_roundtrip (ctx : Ctx) (pre1 pre2 : List Seg) (dims : Bytes) (dw : Bool) (dl : Nat) (bp : Bytes)
     (bw : Bool) (bl : Nat) (data : List Framed) (ew : Bool) (el : Nat) (post : Bytes)
     (h1 : ∀ s ∈ pre1, s.OK 0x0094 bounds1) (h2 : ∀ s ∈ pre2, s.OK 0x0091 bounds2)
     (hd : 16 ≤ dims.length ∧ dims.length < 268435456) (hb : bp.length < 268435456)
-    (hok : ∀ d ∈ data, d.item.OK ctx) (hS : GridSorted (specCells ctx (data.map (·.item)) 0)) :
+    (hok : ∀ d ∈ data, d.item.OK ctx)
+    (hS : ∀ c ∈ specCells ctx (data.map (·.item)) 0, c.1 < 1048576 ∧ c.2.1 < 16384) :
     ∃ r, decodeSheet ctx (sheetBytes pre1 dims dw dl pre2 bp bw bl data ew el post) = .ok r ∧ Range.Inv r ∧
       (r.inner.length = 0 ↔ specCells ctx (data.map (·.item)) 0 = []) ∧
       (∀ c ∈ specCells ctx (data.map (·.item)) 0, r.sr ≤ c.1 ∧ c.1 ≤ r.er ∧ r.sc ≤ c.2.1 ∧ c.2.1 ≤ r.ec) ∧
       (specCells ctx (data.map (·.item)) 0 ≠ [] →
         (∃ c ∈ specCells ctx (data.map (·.item)) 0, c.1 = r.sr) ∧ (∃ c ∈ specCells ctx (data.map (·.item)) 0, c.1 = r.er) ∧
         (∃ c ∈ specCells ctx (data.map (·.item)) 0, c.2.1 = r.sc) ∧ (∃ c ∈ specCells ctx (data.map (·.item)) 0, c.2.1 = r.ec)) ∧
-      ∀ p q, r.valAt p q = (Range.lastAt (specCells ctx (data.map (·.item)) 0) p q).getD Val.empty := by
+      (∀ p q, r.valAt p q = (Range.lastAt (specCells ctx (data.map (·.item)) 0) p q).getD Val.empty) ∧
+      ((specCells ctx (data.map (·.item)) 0).Pairwise (fun a b => ¬ (a.1 = b.1 ∧ a.2.1 = b.2.1)) →
+        ∀ c ∈ specCells ctx (data.map (·.item)) 0, r.valAt c.1 c.2.1 = c.2.2) ∧
+      (∀ p q, (∀ c ∈ specCells ctx (data.map (·.item)) 0, ¬ (c.1 = p ∧ c.2.1 = q)) → r.valAt p q = Val.empty) := by
   rw [decodeSheet_enc ctx pre1 pre2 dims dw dl bp bw bl data ew el post h1 h2 hd hb hok]
   generalize specCells ctx (data.map (·.item)) 0 = S at hS ⊢
-  obtain ⟨r, hr⟩ := Range.fromSparse_of_pre S (sparsePre_of_gridSorted S hS)
+  have hpre : Range.sparsePre S :=
+    ⟨fun c hc => by have := hS c hc; unfold Range.U32; omega,
+     fun c hc c' hc' => by have := hS c hc; have := hS c' hc'; unfold Range.U32; omega⟩
+  obtain ⟨r, hr⟩ := Range.fromSparse_of_pre S hpre
   obtain ⟨hinv, hemp⟩ := Range.inv_fromSparse S r hr
-  refine ⟨r, hr, hinv, hemp, ?_⟩
-  by_cases hne : S = []
-  · subst hne
-    refine ⟨fun c hc => (nomatch hc), fun h => absurd rfl h, ?_⟩
-    intro p q
-    rw [Range.fromSparse_untouched [] r hr p q (fun c hc => nomatch hc)]
-    rfl
-  · obtain ⟨_, hsr, her, hmem, hec, hsc, _⟩ := Range.fromSparse_spec S hne r hr
-      (Range.rowsBetween_of_old S hne (sparsePreSorted_of_gridSorted S hS))
-    have hlast := gridSorted_le_last S hne hS
-    refine ⟨fun c hc => ⟨(hmem c hc).1, her ▸ hlast c hc, (hmem c hc).2.1, (hmem c hc).2.2⟩, fun _ => ⟨?_, ?_, ?_, ?_⟩, ?_⟩
-    · exact ⟨S.head hne, List.head_mem hne, hsr.symm⟩
-    · exact ⟨S.getLast hne, List.getLast_mem hne, her.symm⟩
-    · exact hsc (fun c hc => by have := (hS.2 c hc).2; unfold Range.U32; omega)
-    · exact hec
-    · intro p q
-      exact Range.fromSparse_spec_sorted S hne r hr (fun c hc => hlast c hc) p q
-
-/-- positions pairwise distinct: every cell of the logical sheet is read back at its position with its value -/
-theorem xlsb_cell_at (S : List (Nat × Nat × Val)) (r : Range.Rng Val)
-    (hv : ∀ p q, r.valAt p q = (Range.lastAt S p q).getD Val.empty)
-    (hdist : S.Pairwise (fun a b => ¬ (a.1 = b.1 ∧ a.2.1 = b.2.1))) :
-    ∀ c ∈ S, r.valAt c.1 c.2.1 = c.2.2 := by
-  intro c hc
-  obtain ⟨l1, l2, rfl⟩ := List.append_of_mem hc
-  rw [hv, Range.lastAt_append_cons l1 l2 c]
-  · rfl
-  · intro c' hc' hpos
-    have := List.pairwise_append.mp hdist
-    have h2 := (List.pairwise_cons.mp this.2.1).1 c' hc'
-    exact h2 ⟨hpos.1.symm, hpos.2.symm⟩
-
-/-- a position no cell record addresses reads as empty -/
-theorem xlsb_empty_elsewhere (S : List (Nat × Nat × Val)) (r : Range.Rng Val)
-    (hv : ∀ p q, r.valAt p q = (Range.lastAt S p q).getD Val.empty) (p q : Nat)
-    (hno : ∀ c ∈ S, ¬ (c.1 = p ∧ c.2.1 = q)) : r.valAt p q = Val.empty := by
-  rw [hv]
-  have : Range.lastAt S p q = none := by
-    unfold Range.lastAt
-    rw [Option.map_eq_none_iff, List.find?_eq_none]
-    intro c hc
-    simpa using hno c (List.mem_reverse.mp hc)
-  rw [this]; rfl
-
+  have hval : ∀ p q, r.valAt p q = (Range.lastAt S p q).getD Val.empty := by
+    by_cases hne : S = []
+    · subst hne
+      intro p q
+      rw [Range.fromSparse_untouched [] r hr p q (fun c hc => nomatch hc)]
+      rfl
+    · exact (Range.fromSparse_spec_any S hne r hr).2.2.2.2.2.2
+  refine ⟨r, hr, hinv, hemp, ?_, ?_, hval, valAt_of_lastAt_mem S r hval, valAt_of_lastAt_none S r hval⟩
+  · by_cases hne : S = []
+    · subst hne; exact fun c hc => nomatch hc
+    · exact (Range.fromSparse_spec_any S hne r hr).2.1
+  · intro hne
+    obtain ⟨_, _, t1, t2, t3, t4, _⟩ := Range.fromSparse_spec_any S hne r hr
+    exact ⟨t1, t2, t3, t4⟩
 
 /-! ## totality: no hang, no panic (C06 for the xlsb sheet, string-table and record readers) -/
 
@@ -221,14 +280,6 @@ theorem decodeSheet_no_panic_partial (ctx : Ctx) (bs : Bytes) (m : String) (h : 
   | panic s => exact absurd hc (sheetCells_ne_panic ctx bs s)
   | outOfFuel => rw [hc] at h; cases h
 
-/-- … and when the cells come in non-decreasing rows inside the grid (every sheet a conforming writer produces)
-    there is no panic at all -/
-theorem decodeSheet_no_panic_sorted (ctx : Ctx) (bs : Bytes) (cells : List (Nat × Nat × Val))
-    (hc : sheetCells ctx bs = .ok cells) (hs : GridSorted cells) : ∃ r, decodeSheet ctx bs = .ok r := by
-  unfold decodeSheet
-  rw [hc]
-  exact Range.fromSparse_of_pre cells (sparsePre_of_gridSorted cells hs)
-
 /-- … and since `Range::from_sparse` takes its row bounds as min / max over all cells (fix D40) the row order
     does not matter any more: whenever the cells read have `u32` coordinates whose row and column spans `+ 1`
     fit `u32` (`Range.sparsePre`; in any order) there is no panic. What is still missing for the unconditional
@@ -239,6 +290,36 @@ theorem decodeSheet_no_panic_any_order (ctx : Ctx) (bs : Bytes) (cells : List (N
   unfold decodeSheet
   rw [hc]
   exact Range.fromSparse_of_pre cells hb
+
+/-- every cell the sheet reader yields has a row of at most 0x100000 (`next_cell` ends the sheet at a larger
+    BrtRowHdr) and a `u32` column -/
+theorem sheetCells_coordinates (ctx : Ctx) (bs : Bytes) (cells : List (Nat × Nat × Val))
+    (h : sheetCells ctx bs = .ok cells) : ∀ c ∈ cells, c.1 ≤ 0x100000 ∧ c.2.1 < 4294967296 :=
+  sheetCells_bounds ctx bs cells h
+
+/-- **Totality on hostile input, strongest statement that holds today.** On EVERY byte string, with every style
+    table, string table and date system, `worksheet_range_ref` on an xlsb sheet ends in `Ok` or `Err` — no hang,
+    no panic — under one remaining hypothesis: no two value cells read are `u32::MAX` columns apart.
+    Which bytes can violate it: a cell record whose column field (payload bytes 0..4) is 0x00000000 together with
+    one whose column field is 0xFFFFFFFF; then `col_end − col_start + 1` in `Range::from_sparse` overflows `u32`
+    (panic with overflow checks, wrap to 0 without). Rows cannot violate it: a BrtRowHdr above 0x100000 ends the
+    sheet (`sheetCells_coordinates`), so row spans are at most 0x100001. -/
+theorem decodeSheet_total_hostile (ctx : Ctx) (bs : Bytes)
+    (hcol : ∀ cells, sheetCells ctx bs = .ok cells →
+      ∀ c ∈ cells, ∀ c' ∈ cells, c'.2.1 - c.2.1 + 1 < 4294967296) :
+    (∃ r, decodeSheet ctx bs = .ok r) ∨ (∃ e, decodeSheet ctx bs = .err e) := by
+  unfold decodeSheet
+  cases hc : sheetCells ctx bs with
+  | ok cells =>
+    have hb := sheetCells_bounds ctx bs cells hc
+    have hpre : Range.sparsePre cells :=
+      ⟨fun c hm => by have := hb c hm; unfold Range.U32; omega,
+       fun c hm c' hm' => ⟨by have := hb c hm; have := hb c' hm'; unfold Range.U32; omega,
+                           by have := hcol cells hc c hm c' hm'; unfold Range.U32; omega⟩⟩
+    exact Or.inl (Range.fromSparse_of_pre cells hpre)
+  | err e => exact Or.inr ⟨e, rfl⟩
+  | panic s => exact absurd hc (sheetCells_ne_panic ctx bs s)
+  | outOfFuel => exact absurd hc (sheetCells_ne_fuel ctx bs)
 
 /-- the record iterator never panics and never hangs, whatever the bytes -/
 theorem records_no_panic (bs : Bytes) (m : String) : records bs ≠ .panic m :=
@@ -273,9 +354,9 @@ example :
     · exact ⟨by decide, by decide⟩
     · exact ⟨⟨by decide, by simp [Content.WF]⟩, by decide, Or.inr (by simp [valueOf, styled, rkIntSpec])⟩
     · exact ⟨by decide, by decide, by decide⟩
-    · exact ⟨⟨by decide, by simp [Content.WF]⟩, by decide, Or.inr (by simp [valueOf, isErrCode])⟩
+    · exact ⟨⟨by decide, by simp [Content.WF]⟩, by decide, Or.inr (by simp [valueOf, (by decide : berrKind 7 = some CellErrorType.div0)])⟩
     · exact ⟨⟨by decide, by simp [Content.WF]⟩, by decide, Or.inr (by simp [valueOf])⟩
-  · simp [specCells, valueOf, styled, rkIntSpec, isErrCode]
+  · simp [specCells, valueOf, styled, rkIntSpec, (by decide : berrKind 7 = some CellErrorType.div0)]
 
 /-- non-vacuity of the main theorem: a prologue with a skipped view block (containing a stray
     BrtBeginSheetData) and a BrtWsFmtInfo, two rows at the far corner of the grid, all hypotheses hold and the
@@ -316,11 +397,11 @@ example :
     · exact ⟨⟨by decide, by simp [Content.WF]⟩, by decide, Or.inr (by simp [valueOf, styled, rkIntSpec])⟩
     · exact ⟨by decide, by decide, by decide⟩
     · exact ⟨by decide, by decide⟩
-    · exact ⟨⟨by decide, by simp [Content.WF]⟩, by decide, Or.inr (by simp [valueOf, isErrCode])⟩
+    · exact ⟨⟨by decide, by simp [Content.WF]⟩, by decide, Or.inr (by simp [valueOf, (by decide : berrKind 7 = some CellErrorType.div0)])⟩
     · exact ⟨⟨by decide, by simp [Content.WF]⟩, by decide, Or.inr (by simp [valueOf])⟩
     · exact ⟨⟨by decide, by simp [Content.WF]⟩, by decide, Or.inl rfl⟩
     · exact ⟨⟨by decide, by simp [Content.WF]⟩, by decide, Or.inr (by simp [valueOf])⟩
-  · simp [GridSorted, specCells, valueOf, styled, rkIntSpec, isErrCode]
-  · simp [specCells, valueOf, styled, rkIntSpec, isErrCode]
+  · simp [GridSorted, specCells, valueOf, styled, rkIntSpec, (by decide : berrKind 7 = some CellErrorType.div0)]
+  · simp [specCells, valueOf, styled, rkIntSpec, (by decide : berrKind 7 = some CellErrorType.div0)]
 
 end Xlsb
